@@ -12,7 +12,7 @@ from . import explore, semh
 from .interp import SV, SB, Panic, Unsupported, Violation
 from .main import Result
 
-PRE = "int a ; const int c = 1 ; bit b ; qubit q ; qubit [ 2 ] r ; duration d = 1 ns ; gate g x { } gate k ( s , t ) x , y { } def f ( int z ) { } const bool j = true ; const float [ 64 ] l = 1.0 ; bool n ;"
+PRE = "int a ; const int c = 1 ; bit b ; qubit q ; qubit [ 2 ] r ; duration d = 1 ns ; gate g x { } gate k ( s , t ) x , y { } def f ( int z ) { } const bool j = true ; const float [ 64 ] l = 1.0 ; bool n ; def P ( ) { } def Q ( int y , int z ) { }"
 POOL = "acbqrdgkfUu"
 GATES = {"g": (0, 1), "k": (2, 2), "U": (3, 1)}
 QUANTUM = "qr"
@@ -55,7 +55,7 @@ class H(semh.Base):
             body = f"{nm('X')} {op} 1 ;" if side == "l" else f"1 {op} {nm('X')} ;"
         elif k == "defcall":
             _, m = self.task
-            body = f"{nm('N', 'f')} ( " + " , ".join(["1"] * m) + " ) ;"
+            body = f"{nm('N', 'fPQ')} ( " + " , ".join(["1"] * m) + " ) ;"
         elif k == "assign":
             rhs = self.task[1] if len(self.task) > 1 else "2"
             body = f"{nm('X', 'acbdjln')} = {rhs} ;"
@@ -134,9 +134,10 @@ class H(semh.Base):
             return "binop"
         if k == "defcall":
             _, m = self.task
-            P(has("NumDefParamsError") == z3.BoolVal(m != 1), f"subroutine call with {m} arguments (definition has 1): NumDefParamsError {'reported' if 'NumDefParamsError' in kinds else 'not reported'}")
-            if m == 1 and errs:
-                raise Violation(f"`{self.label()}`: a correct subroutine call gets diagnostics {kinds}")
+            N = V["N"]
+            arity_ne = z3.Or(z3.And(N == ord("f"), z3.BoolVal(m != 1)), z3.And(N == ord("P"), z3.BoolVal(m != 0)), z3.And(N == ord("Q"), z3.BoolVal(m != 2)))
+            P(has("NumDefParamsError") == arity_ne, f"subroutine call with {m} arguments: NumDefParamsError {'reported' if 'NumDefParamsError' in kinds else 'not reported'}, which is wrong for the definition's parameter count")
+            P(z3.Implies(z3.Not(arity_ne), z3.BoolVal(not errs)), f"a correct subroutine call gets diagnostics {kinds}")
             return "defcall"
         if k == "assign":
             X = V["X"]
@@ -203,7 +204,7 @@ def build_tasks(quick):
     for op in ("+", "*", "==", "<") if not quick else ("+", "=="):
         for side in "lr":
             tasks.append(("binop", op, side))
-    for m in (1, 2, 3):
+    for m in (0, 1, 2, 3):
         tasks.append(("defcall", m))
     for rhs in ("2", "false", "1.0", "c", "j", "l", "a", "1 ns"):
         tasks.append(("assign", rhs))
